@@ -27,7 +27,7 @@ with ThreadPoolExecutor(max_workers=14) as ex:
 mat = {}
 for sid, c, code, rules in res:
     mat.setdefault(sid, {})[c] = (code, rules)
-out = {}
+out = json.load(open("/verif/seeded/matrix.json")) if only and os.path.exists("/verif/seeded/matrix.json") else {}
 for sid in sorted(mat):
     hits = {c: r for c, (code, r) in mat[sid].items() if code == 1}
     errs = [c for c, (code, r) in mat[sid].items() if code not in (0, 1)]
